@@ -40,7 +40,26 @@ type Case struct {
 	Pre int `json:"pre,omitempty"`
 }
 
-var names = kit.BuiltinNames()
+var names = allNames()
+
+// probeVal is the value written through the view at a probe: small integers for the integer
+// types; for the floating types values that are not whole numbers, infinities and a value
+// beyond int32 (all exact in float32).
+func probeVal(tn string, k int) kit.Val {
+	if kit.Info(tn).Kind == kit.Float {
+		return kit.FV([]float64{0.25, -0.5, 1.5, -7.75, 100.5, 0.0009765625, math.Inf(1), math.Inf(-1), 3221225472}[k%9])
+	}
+	return kit.IV(int64(100 + k%27))
+}
+
+// allNames: the 13 built-in element types and the named types over them.
+func allNames() []string {
+	out := kit.BuiltinNames()
+	for _, t := range kit.NamedTypes {
+		out = append(out, t.Name)
+	}
+	return out
+}
 
 func Check(c *Case) (res kit.Result) {
 	ok := false
@@ -176,7 +195,7 @@ func Check(c *Case) (res kit.Result) {
 				return
 			}
 		}
-		nv := kit.IV(int64(100 + (i+c.Ch)%27))
+		nv := probeVal(c.T, i+c.Ch)
 		if p, v := kit.Try(func() { view.SetSample(i, nv) }); p {
 			res.Failf("%s: SetSample panicked: %v", what, v)
 			return
@@ -318,7 +337,7 @@ func checkMovedN(c *Case, res *kit.Result, parent kit.AnyBuf, view kit.AnyChan, 
 				return *res
 			}
 		}
-		nv := kit.IV(int64(100 + (i+c.Ch)%27))
+		nv := probeVal(c.T, i+c.Ch)
 		view.SetSample(i, nv)
 		model[pos] = parent.Get(pos)
 		if model[pos].String() != nv.String() {
